@@ -99,6 +99,7 @@ func checkC12(w *World, r *Report) {
 	r.Rule("R12.2", "command table has no callable nil", 2)
 	r.Rule("R12.3", "client-requested sizes are bounded before use", 2)
 	r.Rule("R12.5", "loops in the untrusted cone make progress", 3)
+	r.Rule("R12.6", "state kept per received message is bounded (parked packets)", 1)
 
 	// ---------------------------------------------------------------- R12.1
 	var serverEntry *ssa.Function
@@ -222,6 +223,12 @@ func checkC12(w *World, r *Report) {
 			}
 			r.Check(lf.Msg == "", "R12.5", key, lf.Pos, fmt.Sprintf("%d cyclic path(s), each changes a variable the exit depends on %v", lf.Paths, lf.Vars),
 				lf.Msg+": crafted input that keeps the loop on that path makes it spin forever", "paths", lf.Paths)
+		}
+	}
+	// R12.6: per-message state is bounded (shares the analysis of C07 R07.11)
+	if inQ := w.Named("internal/streams/dns/util", "InQueue"); inQ != nil {
+		if fn := w.SSAFunc(methodOf(inQ, "Append")); fn != nil {
+			c07Parked(w, r, "R12.6", fn, inQ)
 		}
 	}
 	r.Extra["untrusted_cone_functions"] = len(cone)
